@@ -148,7 +148,8 @@ def jobs(tier):
 
 # configurations reached through something other than a declared sub-schema, and schemas that gain their sensitive
 # fields after a first masked rendering
-INDIRECT = ["dict-of-list-of-configs", "list-of-list-of-configs", "dict-of-dict-of-list-of-configs", "virtual-returns-item", "virtual-returns-sub", "dynamic-holds-config", "late-attr", "late-item", "late-dotted-item", "late-auto-sub",
+INDIRECT = ["dict-of-list-of-configs", "list-of-list-of-configs", "dict-of-dict-of-list-of-configs", "sub:dict-of-list-of-configs", "sub:list-of-list-of-configs",
+            "untyped-list-holds-configs", "any-holds-config-list", "dynamic-holds-config-list", "sub:untyped-list-holds-configs", "virtual-returns-item", "virtual-returns-sub", "dynamic-holds-config", "late-attr", "late-item", "late-dotted-item", "late-auto-sub",
             "late-in-item-schema"]
 
 
@@ -159,24 +160,33 @@ def _indirect_world(variant, keypath, prior_render):
         sch.sec_s = cc.StringField(sensitive=True)
         sch.sec_x = cc.SecureField(method="xor")
         sch.pub_s = cc.StringField()
-    s = cc.Schema(dynamic=(variant == "dynamic-holds-config"))
+    s = cc.Schema(dynamic=variant.startswith("dynamic-holds-config"))
     node(s)
     node(s.sub)
     item = cc.Schema()
     node(item)
     s.items = cc.ListField(item)
     nested_val = None
+    holder = s.sub if variant.startswith("sub:") else s          # the container field sits at the root or one level down
+    if variant.endswith("holds-configs") or variant.endswith("holds-config-list"):
+        # a list of configurations held by a field that is not a typed list of them
+        mk = lambda: item(sec_s="TOPSECRET-xyz", sec_x="XSECRET-q9", pub_s="PUBLIC-abc")  # noqa
+        if "untyped-list" in variant:
+            holder.deepc = cc.ListField()
+        elif variant.startswith("any"):
+            holder.deepc = cc.AnyField()
+        nested_val = lambda: [mk(), mk()]  # noqa
     if variant.endswith("of-list-of-configs"):
         # configurations held in a list that itself sits inside a typed dict / list value
         mk = lambda: item(sec_s="TOPSECRET-xyz", sec_x="XSECRET-q9", pub_s="PUBLIC-abc")  # noqa
-        if variant.startswith("dict-of-list"):
-            s.deepc = cc.DictField(cc.StringField(), cc.ListField(item))
+        if "dict-of-list" in variant and "dict-of-dict" not in variant:
+            holder.deepc = cc.DictField(cc.StringField(), cc.ListField(item))
             nested_val = lambda: {"k": [mk(), mk()]}  # noqa
-        elif variant.startswith("list-of-list"):
-            s.deepc = cc.ListField(cc.ListField(item))
+        elif "list-of-list" in variant:
+            holder.deepc = cc.ListField(cc.ListField(item))
             nested_val = lambda: [[mk()], [mk(), mk()]]  # noqa
         else:
-            s.deepc = cc.DictField(cc.StringField(), cc.DictField(cc.StringField(), cc.ListField(item)))
+            holder.deepc = cc.DictField(cc.StringField(), cc.DictField(cc.StringField(), cc.ListField(item)))
             nested_val = lambda: {"o": {"k": [mk()]}}  # noqa
     if variant == "virtual-returns-item":
         s.first = cc.VirtualField(lambda cfg: cfg.items[0] if cfg.items else None)
@@ -187,7 +197,7 @@ def _indirect_world(variant, keypath, prior_render):
     cfg = cc.Config(s, key_filename=keypath)
     cfg.load_tree(tree)
     if nested_val is not None:
-        cfg.deepc = nested_val()
+        (cfg.sub if variant.startswith("sub:") else cfg).deepc = nested_val()
     if prior_render:
         cfg.to_tree(sensitive_mask="*")
         cfg.dumps("json", sensitive_mask="XX")
